@@ -563,11 +563,24 @@ impl IpcConnecter {
       .unwrap_or_else(|| Duration::from_secs(5));
     let mut system_event_rx = self.context.event_bus().subscribe(); // For early abort
 
+    // A connecter spawned while the context or its parent socket was already shutting down
+    // subscribed to the event bus too late to see ContextTerminating / SocketClosing: consult
+    // the flags those events stand for, or a closed socket could still open a connection.
+    let already_stopping = self
+      .context
+      .inner()
+      .shutdown_initiated
+      .load(std::sync::atomic::Ordering::Acquire)
+      || !self.socket_logic.core().is_running();
+
     let connect_future = UnixStream::connect(&self.path);
 
     tokio::select! {
       biased;
       _ = async { // Early abort if context/socket is closing
+        if already_stopping {
+          return;
+        }
         loop {
           match system_event_rx.recv().await {
             Ok(SystemEvent::ContextTerminating) => break,
